@@ -207,6 +207,8 @@ void expire() {
   }
 }
 
+int (*g_picker)(int, const int*, int, int) = nullptr;
+
 Thread* pick(Thread* me, bool must_switch) {
   for (;;) {
     expire();
@@ -220,6 +222,12 @@ Thread* pick(Thread* me, bool must_switch) {
       if (best == UINT64_MAX) die("deadlock");
       g_clock = std::max(g_clock, best);
       continue;
+    }
+    if (g_picker) {
+      std::vector<int> ids;
+      for (Thread* t : r) ids.push_back(t->id);
+      int k = g_picker(me ? me->id : -1, ids.data(), (int)ids.size(), must_switch ? 1 : 0);
+      if (k >= 0 && k < (int)r.size()) return r[k];
     }
     if (g_strategy == 1) {
       // PCT: highest priority runnable; priorities drop at random change points and on yields
@@ -491,6 +499,7 @@ void vrt_payload(const void* addr, size_t len, const char* name) {
   g_payload.push_back({(uintptr_t)addr, (uintptr_t)addr + len, name});
 }
 void vrt_set_resolver(bool (*fn)(const void* addr, char* out, size_t cap)) { g_resolver = fn; }
+void vrt_set_picker(int (*fn)(int, const int*, int, int)) { g_picker = fn; }
 uint64_t vrt_stale_reads() { return g_stale_reads; }
 void vrt_payload_sched(int on) { g_payload_sched = on != 0; }
 void vrt_payload_trace(int on) { g_payload_trace = on != 0; }
